@@ -35,6 +35,25 @@ pub fn generate(prop: &str, rng: &mut Rng, thorough: bool) -> History {
 }
 
 pub fn run(prop: &str, h: &History, io_dir: &str, st: &mut Stats) -> Outcome {
+    // Calls into raqote are guarded one by one inside the engines. This outer guard is for the
+    // reference model itself: sw-composite's non-separable blend functions, which the kernel
+    // evaluates too, can overflow-panic (known finding F11) - such a run is abandoned.
+    let r = crate::mk::guarded(u64::MAX, || run_inner(prop, h, io_dir, st));
+    let out = match r {
+        Ok(o) => o,
+        Err(pi) => {
+            let class = format!("model-side {}", panic_class(&pi));
+            st.abort(&class);
+            st.count("runs_aborted");
+            Outcome::Aborted(format!("reference model: {}", panic_desc(&pi)))
+        }
+    };
+    raqote::verif::set_buggify(0);
+    st.absorb_hooks();
+    out
+}
+
+fn run_inner(prop: &str, h: &History, io_dir: &str, st: &mut Stats) -> Outcome {
     let out = match prop {
         "C02" => tower::run_tower(tower::Prop::C02, h, st),
         "C03" => tower::run_tower(tower::Prop::C03, h, st),
@@ -55,8 +74,6 @@ pub fn run(prop: &str, h: &History, io_dir: &str, st: &mut Stats) -> Outcome {
         "C19" => misc::run_c19(h, io_dir, st),
         _ => panic!("unknown property {}", prop),
     };
-    raqote::verif::set_buggify(0);
-    st.absorb_hooks();
     out
 }
 
